@@ -46,6 +46,10 @@ def strings(tier, r):
         out.append(''.join(chr(r.choice([r.randint(0, 0x7f), r.randint(0x80, 0x2ff), r.randint(0x2000, 0x206f),
                                          r.randint(0xd7ff, 0xd7ff), r.randint(0xe000, 0xf8ff), r.randint(0x1f600, 0x1f64f),
                                          0x10ffff])) for _ in range(r.randint(1, 40))))
+    # no whitespace at all, punctuation between the words: the non-word split pattern (str and bytes)
+    for _ in range(120 if tier == 'quick' else 1500):
+        out.append(valgen.rand_punct_text(r, False))
+        out.append(valgen.rand_punct_text(r, True))
     # long runs of ONE byte / character (every byte value; characters of every class the splitter and the
     # escaper distinguish): no break opportunity, nothing but escapes, nothing but separators ...
     step = 1 if tier != 'quick' else 5
